@@ -234,6 +234,16 @@ func rangeIndexOver(idx ssa.Value, coll ssa.Value) bool {
 				bound = lc.Call.Args[0]
 			}
 		}
+		// a range over an array: the bound is the array's length as a constant
+		if k, ok := cb.Y.(*ssa.Const); ok && bound == nil && k.Value != nil {
+			t := coll.Type().Underlying()
+			if p, isP := t.(*types.Pointer); isP {
+				t = p.Elem().Underlying()
+			}
+			if at, isArr := t.(*types.Array); isArr && k.Int64() == at.Len() {
+				return true
+			}
+		}
 		if bound == nil {
 			continue
 		}
@@ -578,6 +588,9 @@ func propC08(c *Ctx, r *Report) {
 	}
 	ruleUnpricedNotValued(c, r, "C08/unpriced-not-valued")
 	rulePnWinnersGuard(c, r, cat, "C08/winners-insert-guarded")
+	ruleBankRowHeight(c, r, "C08/bank-row-height")
+	r.rule("C08/replay-predicate", 1, "the replay check asks for any relation row of the entry hash")
+	ruleReplayPredicate(c, r, cat, "C08/replay-predicate")
 	r.rule("C08/convert-verdicts", 2, "a Convert error that is propagated was ruled out by an identical, dropped pre-check")
 	convertVerdicts(c, r, "C08/convert-verdicts")
 
